@@ -1,5 +1,6 @@
 import MorphKgc.Drv.Core
 import MorphKgc.Model.Normalize
+import MorphKgc.Props.C08
 
 namespace Drv.SpecD
 open Lean Py Model Drv Spec
@@ -69,6 +70,10 @@ def handle (op : String) (j : Json) : Option (R Json) :=
       match evalAll env (normalizeDoc doc) with
       | .ok ls => pure (jobj [("ok", jstrs ls)])
       | .error e => pure (Drv.Core.errJson e)
+  | "quads" => some do
+      let env ← parseSEnv j
+      let doc ← parseDoc j
+      pure (jarr ((Props.C08.quadsOf env doc).map fun q => jarr [jstr q.1, jstr q.2]))
   | "render_tpl" => some do
       let t ← parseTpl (← j.getObjVal? "tpl")
       pure (jstr t.render)
